@@ -182,7 +182,7 @@ class C05(Prop):
             near, a, b, sa, sb, cands = sample(rng)
             sa = [s for s in sa if _valid_clause(s)]
             sb = [s for s in sb if _valid_clause(s)]
-            how = "list" if (rng.random() < 0.25 or any("," in s for s in sa)) else "str"
+            how = rng.choice(["list", "list", "gen"]) if (rng.random() < 0.25 or any("," in s for s in sa)) else rng.choice(["str", "str", "and"])
             # a second clause list with the same members up to Specifier equality: permuted, duplicated, respelled variants
             sa2 = list(sa)
             for c in a:
@@ -219,8 +219,16 @@ class C05(Prop):
         def mk(clauses, how="str", ov=None):
             if how == "list":
                 return SpecifierSet([Specifier(c) for c in clauses], prereleases=ov)
+            if how == "gen":          # any iterable of Specifier objects: here a one-shot generator
+                return SpecifierSet((Specifier(c) for c in clauses), prereleases=ov)
             if any("," in c for c in clauses):
                 raise G.Domain("a clause containing a comma cannot be given inside a string")
+            if how == "and":
+                # the same set, obtained by intersecting one-clause sets (alternately `set & str` and `set & set`)
+                acc = SpecifierSet(clauses[0] if clauses else "", prereleases=ov)
+                for i, c in enumerate(clauses[1:]):
+                    acc = acc & (c if i % 2 == 0 else SpecifierSet(c))
+                return acc if clauses[1:] else acc & SpecifierSet("")
             return SpecifierSet(",".join(clauses), prereleases=ov)
 
         if law == "conjunction":
@@ -284,6 +292,15 @@ class C05(Prop):
                     if got != both:
                         return False, (f"({a!r} & {b!r}).contains({c!r}, prereleases=True) = {got}; "
                                        f"a: {a.contains(c, prereleases=True)}, b: {b.contains(c, prereleases=True)}")
+                # `&` leaves its operands alone, also afterwards: the result is the caller's to change (its override is
+                # settable), and nothing of that may show in the operands
+                snap = [(str(x), x.prereleases, x._prereleases, len(x), [x.contains(c) for c in inp["cands"]]) for x in (a, b)]
+                for val in (True, False, None):
+                    r.prereleases = val
+                    now = [(str(x), x.prereleases, x._prereleases, len(x), [x.contains(c) for c in inp["cands"]]) for x in (a, b)]
+                    if now != snap:
+                        return False, (f"after `r = {a!r} & {b!r}` (overrides {oa}, {ob_}), setting r.prereleases = {val} changed an operand: "
+                                       f"{snap} -> {now}")
             return True, ""
 
         if law == "comm_assoc":
@@ -385,4 +402,21 @@ def _has_raw(clauses):
     return False
 
 
-PROP = C05()
+from srccall import with_src  # noqa: E402
+
+# translated source (x5): the SpecifierSet constructor, `&`, `==`, `hash`, `len`, `str`, `iter` and the Specifier methods
+# they rest on are regenerated from specifiers.py and proved equal to the SSet.* functions the C05 theorems are about
+# (iteration order of the frozenset: a parameter, see Src.Ordered / Src.ordered_of_perm)
+PROP = with_src(C05(), share=10,
+                functions=["Specifier.__str__", "Specifier._canonical_spec", "Specifier.__hash__", "Specifier.__eq__",
+                           "SpecifierSet.__init__", "SpecifierSet.__and__", "SpecifierSet.__eq__", "SpecifierSet.__hash__",
+                           "SpecifierSet.__len__", "SpecifierSet.__str__", "SpecifierSet.__iter__"],
+                module=["PkgProofs.Props.Src.SSetMember", "PkgProofs.Props.Src.SSetBuild", "PkgProofs.Props.Src.SSetRead"],
+                theorems=["Src.member_translated", "Src.build_translated", "Src.read_translated",
+                          "Src.Specifier.__str___eq_model", "Src.Specifier._canonical_spec_eq_model",
+                          "Src.Specifier.__hash___eq_model", "Src.Specifier.__eq___eq_model", "Src.Specifier.__eq___str",
+                          "Src.SpecifierSet.__init___specs", "Src.SpecifierSet.__init___str",
+                          "Src.SpecifierSet.__and___eq_model", "Src.SpecifierSet.__and___str",
+                          "Src.SpecifierSet.__eq___eq_model", "Src.SpecifierSet.__eq___str", "Src.SpecifierSet.__eq___spec",
+                          "Src.SpecifierSet.__hash___eq_model", "Src.SpecifierSet.__len___eq_model",
+                          "Src.SpecifierSet.__str___eq_model", "Src.SpecifierSet.__iter___eq_model", "Src.ordered_of_perm"])
